@@ -16,6 +16,9 @@ SEEDS = [
     ('join_op', "s: ','", "{'a'}\n"),
     ('rule_def_op', "s", " 'a'\n"),
     ('rule_def_op_bnf', "s:", "= 'a'\n"),
+    # a comment between the rule head and the definition operator: only the void () of the rule production skips it
+    ('rule_def_op_after_comment', "s (* c *)", " 'a'\n"),
+    ('rule_def_op_after_eol_comment', "s[A] # c\n", " 'a'\n"),
     ('meta_name', "s: @", "nt\n"),
     ('after_dollar', "s: $", "\n"),
     ('regex_content', "s: /a", "/\n"),
@@ -32,7 +35,7 @@ SEEDS = [
     ('group_content', "s: (", ")\n"),
     ('optional_q', "s: 'a'", "\n"),
 ]
-QUICK = ['expr_start', 'prefix_op', 'naming_op', 'rule_def_op', 'rule_def_op_bnf', 'alert_level', 'params', 'leading', 'param_literal_prefix']
+QUICK = ['expr_start', 'prefix_op', 'naming_op', 'rule_def_op', 'rule_def_op_bnf', 'rule_def_op_after_comment', 'alert_level', 'params', 'leading', 'param_literal_prefix']
 REGEN_QUICK = ['param_literal_prefix', 'rule_def_op']      # seeds that also run the parser regenerated from _tatsu.ebnf in the quick tier
 
 
